@@ -218,7 +218,29 @@ def run(w) -> None:
             w.mark_inconclusive("child with PYTHONHASHSEED={} failed: {}".format(hs, res.stderr[-500:]))
             continue
         w.count("hash_seeds")
-        reports[hs] = json.loads(line[0][7:])["cases"]
+        full_report = json.loads(line[0][7:])
+        reports[hs] = full_report["cases"]
+        # class invariants: the values are rendered through the a_repr given to the invariant (or the default limits)
+        for entry in full_report.get("invariants", []):
+            w.count("invariant_messages_checked")
+            w.case(("invariant", entry["scenario"], entry["custom"], entry["n_items"], hs))
+            icase = {"invariant_scenario": entry["scenario"], "custom_repr": entry["custom"], "n_items": entry["n_items"]}
+            if entry["outcome"] != "violation":
+                w.violation("C20/invariant-scenario-without-violation", "invariant scenario {} gave {}".format(entry["scenario"], entry["outcome"]), icase)
+                continue
+            for part in entry["parts"]:
+                for key in ("self.items", "self.text"):
+                    if part.startswith(key + " was "):
+                        shown = part[len(key) + 5:]
+                        w.count("value_lines_checked")
+                        if entry["custom"]:
+                            if shown not in entry["logged"]:
+                                w.violation("C20/value-not-rendered-by-the-contracts-a_repr", "invariant ({}): `{} was {}` was not produced by the "
+                                            "a_repr given to the invariant (its results: {})".format(
+                                                entry["scenario"], key, shown[:80], [x[:40] for x in entry["logged"]][:6]), icase, {"parts": entry["parts"]})
+                        elif shown != entry["reference"][key]:
+                            w.violation("C20/default-limits-not-applied", "invariant ({}): `{} was {}`; with the documented default limits it is {!r}".format(
+                                entry["scenario"], key, shown[:80], entry["reference"][key][:80]), icase, {"parts": entry["parts"]})
     by_name = {it["name"]: it for it in items}
     for call in calls:
         name = call["name"]
